@@ -157,6 +157,42 @@ def r1_sinks(ctx):
             ctx.ob("R1", "qname:write_element:anchor", n_el >= 1, "ElementSerializer construction found in write_element", config=cfg)
 
 
+def loop_scan(ctx, b, p):
+    """Loop spelling of the scan: the Ok path leaves a loop over `name.chars()` only because the iterator is
+    exhausted, and every way round that loop has tested the item with is_xml11_name_char and found it true."""
+    def over_chars(t):
+        return has_subterm(t, lambda s: call_is(s, "chars") and has_subterm(s, lambda a: a[0] == "arg"))
+    heads = []
+    cur = None
+    for e in p:
+        if e[0] == "head":
+            cur = e[1]
+        elif e[0] == "switch" and cur is not None and e[2][0] == "discr" and call_is(e[2][1], "next") and e[3] == 0 \
+                and has_subterm(e[2][1], lambda s: s[0] == "phi" and s[1] == cur and over_chars(s)):
+            heads.append(cur)
+    for h in heads:
+        rounds = [q for q in ctx.paths(b) if ends(q) == "loop" and q[-1][1] == h]
+        if not rounds:
+            continue
+        good = True
+        for q in rounds:
+            item = None
+            seen_head = False
+            tested = False
+            for e in q:
+                if e[0] == "head" and e[1] == h:
+                    seen_head = True
+                elif seen_head and e[0] == "call" and name_is(e[2], "next") and item is None:
+                    item = e
+                elif seen_head and e[0] == "switch" and call_is(e[2], "is_xml11_name_char") and e[3] not in (None, 0) and item is not None \
+                        and has_subterm(e[2][3][0], lambda s: s[0] == "call" and s[1] == item[1]):
+                    tested = True
+            good = good and tested
+        if good:
+            return True
+    return False
+
+
 def r2_xmlname(ctx):
     for cfg, F in ctx.facts.items():
         # who may construct
@@ -197,6 +233,8 @@ def r2_xmlname(ctx):
                         cb = F.closure(a[1])
                         if cb is not None and any(name_is(callee_of(t)[0] or "", "is_xml11_name_char") for _, t in cb.calls()):
                             rest_ok = True
+            if not rest_ok:
+                rest_ok = loop_scan(ctx, b, p)
             ctx.ob("R2", site + ":name-chars", rest_ok, "every Ok path must have scanned all characters with is_xml11_name_char", config=cfg)
             ctx.ob("R2", site + ":returns-arg", has_subterm(r, lambda s: s[0] == "arg" and s[2] == "name"), "the validated string is the one wrapped", config=cfg)
         ctx.floor("R2", "Ok paths of XmlName::try_from", oks, 1, config=cfg)
